@@ -186,7 +186,7 @@ func runBktScenario(rep *Report, sc bktScenario, tag string) {
 		beforeSet := map[string]bool{}
 		bb.pgids(beforeSet)
 		delete(beforeSet, "0")
-		add("orig "+bkCanon(before, nil), "ok a=true") // a=true: the file content equals the reference model's state
+		add("orig "+bkCanon(before, nil), "ok a=true o=true w=true") // the file content equals the reference model's state; the decidable well-formedness holds on it
 		fill := t.Fill
 		if fill < 0.1 {
 			fill = 0.1
@@ -256,7 +256,7 @@ func runBktScenario(rep *Report, sc bktScenario, tag string) {
 			}
 		}
 		add("dump", "CANON:"+bkCanon(top.VerifBucketTree(false), nil))
-		add("agree", "a=true") // abstraction of the model state = reference model after the same API calls
+		add("agree", "a=true w=true") // abstraction of the model state = reference model after the same API calls
 		order = order[:0]
 		if err := tx.Commit(); err != nil {
 			fail("bkt-commit-failed", fmt.Sprintf("tx %d: %v", ti, err))
@@ -273,6 +273,7 @@ func runBktScenario(rep *Report, sc bktScenario, tag string) {
 		var after string
 		_ = db.View(func(tx *bolt.Tx) error { after = tx.Bucket([]byte("b")).VerifBucketTree(true); return nil })
 		add("full", "KEEP:"+bkCanon(after, beforeSet))
+		add("fullok", "o=true")
 		rep.count("tx")
 		// structural monitors on every bucket's committed tree
 		ab, _ := parseBK(strings.Fields(after))
